@@ -3,7 +3,7 @@
 Proof side  : gen/gen_frame.py regenerates Gen/IterSites.v (every place where the iteration order
               of a set is observable, classified); Props/C13.v checks by vm_compute that every site
               is discharged by a generic Permutation lemma, unreachable, or modelled and proved order
-              independent -- except the explicitly listed DynamicOnly sites (partial).
+              independent, and that no site is left to dynamic validation only (dynamic_only = []).
 Dynamic side: (a) whole-tool runs of `gasol_asm.py <contract> -greedy -log -intermediate` as
               subprocesses under different PYTHONHASHSEED / cwd / temp dirs: byte comparison of the
               optimized contract, the log and every SFS json;
@@ -217,7 +217,7 @@ def check(run):
     run.cov["trusted_base"] += [
         "gen/gen_frame.py iter_sites: syntactic recognition of set-typed expressions (displays, set()/frozenset(), set methods and operators, "
         "annotations, names/attributes/functions assigned or returning such) and of their order-observing consumers",
-        "six DynamicOnly sites (bound/dependency computations) are NOT proved order independent: forced-order replay only (C13 partial)",
+        "the six sites of the bound/dependency computations are discharged as sorted() consumers since fix 2b1d7c75; forced-order replay still exercises them",
     ]
     sites = tables.get("sites", [])
     stat = {}
@@ -348,7 +348,7 @@ def check(run):
                     "undischarged": [(s["module"], s["function"]) for s in undis][:6]},
                    "the C13 site obligation no longer checks (%s); undischarged sites: %s; no seed or forced order changed an output"
                    % (str(run.proof_broken)[:200], [(s["module"], s["function"], s["line"]) for s in undis][:6]),
-                   {"broken": "Props/C13.v c13_sites_partial", "detail": str(run.proof_broken)[:2000],
+                   {"broken": "Props/C13.v c13_sites", "detail": str(run.proof_broken)[:2000],
                     "undischarged": undis}, found_input=False)
 
     run.cov["evaluations"] = evaluations
